@@ -100,6 +100,7 @@ func (vc *VC) instr(ins ssa.Instruction) {
 	case *ssa.MapUpdate:
 		vc.mapUpdate(ins)
 	case *ssa.Range:
+		vc.guardedUse(ins.X, ins.Pos(), "range")
 		vc.define(ins, "")
 	case *ssa.Next:
 		vc.next(ins)
@@ -418,6 +419,9 @@ func (vc *VC) frameCheck(ptr ssa.Value, pos token.Pos) {
 	if vc.fc == nil || vc.fc.Sweep || !vc.fc.HasMod {
 		return
 	}
+	if _, isFree := ptr.(*ssa.FreeVar); isFree {
+		return // a variable of the enclosing function (captured by reference): local to that function
+	}
 	base, ok := vc.storeBase(ptr)
 	if !ok {
 		return
@@ -615,6 +619,69 @@ func hasSuffixAt(s, suf string) bool {
 	}
 	c := s[len(s)-len(suf)-1]
 	return c == '/' || c == '.'
+}
+
+// ---- guarded_by ------------------------------------------------------------------------------------------
+
+// guardOf: if v is a value loaded from a field declared guarded_by, the lock that must be held to use it.
+func (vc *VC) guardOf(v ssa.Value) (lock string, g *Guarded, ok bool) {
+	ld, isLoad := v.(*ssa.UnOp)
+	if !isLoad || ld.Op != token.MUL {
+		return "", nil, false
+	}
+	fa, isFA := ld.X.(*ssa.FieldAddr)
+	if !isFA {
+		return "", nil, false
+	}
+	st := deref(fa.X.Type())
+	s, isStruct := structOf(st)
+	if !isStruct {
+		return "", nil, false
+	}
+	name := shortType(st) + "." + s.Field(fa.Field).Name()
+	for _, gd := range vc.C.Guarded {
+		if gd.Field != name {
+			continue
+		}
+		excepted := false
+		for _, ex := range gd.Except {
+			if matchCallee(vc.Name, ex) || matchCallee(CanonName(rootFunc(vc.fn)), ex) {
+				excepted = true
+			}
+		}
+		if excepted {
+			vc.usedContracts["guarded_by "+gd.Field+" not applied in "+shortName(vc.Name)+" (declared exception)"] = true
+			continue
+		}
+		for i := 0; i < s.NumFields(); i++ {
+			if shortType(st)+"."+s.Field(i).Name() == gd.Mutex {
+				return vc.subRef(st, i, vc.val(fa.X)), gd, true
+			}
+		}
+	}
+	return "", nil, false
+}
+
+func rootFunc(f *ssa.Function) *ssa.Function {
+	for f.Parent() != nil {
+		f = f.Parent()
+	}
+	return f
+}
+
+// guardedUse: using (dereferencing, indexing, calling a method on) a guarded value needs its lock.
+func (vc *VC) guardedUse(v ssa.Value, pos token.Pos, what string) {
+	lock, gd, ok := vc.guardOf(v)
+	if !ok {
+		return
+	}
+	key, _, okh := vc.ghostKey("held")
+	if !okh {
+		return
+	}
+	o := vc.oblige("guarded-by", what, fmt.Sprintf("(select %s %s)", vc.st.get(key), lock), gd.Tags, pos, nil)
+	o.Text = gd.Field + " is used only while " + gd.Mutex + " is held"
+	o.File, o.Line = gd.File, gd.Line
 }
 
 // ---- unary / binary ---------------------------------------------------------------------
@@ -933,6 +1000,7 @@ func (vc *VC) slice(ins *ssa.Slice) {
 }
 
 func (vc *VC) lookup(ins *ssa.Lookup) {
+	vc.guardedUse(ins.X, ins.Pos(), "map-read")
 	x, k := vc.val(ins.X), vc.val(ins.Index)
 	if m, ok := ins.X.Type().Underlying().(*types.Map); ok {
 		d, v := vc.mapKeys(m)
@@ -960,6 +1028,7 @@ func (vc *VC) lookup(ins *ssa.Lookup) {
 
 func (vc *VC) mapUpdate(ins *ssa.MapUpdate) {
 	m := ins.Map.Type().Underlying().(*types.Map)
+	vc.guardedUse(ins.Map, ins.Pos(), "map-write")
 	x, k, v := vc.val(ins.Map), vc.val(ins.Key), vc.val(ins.Value)
 	vc.obligeSafety("nil-map-store", fmt.Sprintf("(not (= %s 0))", x), ins.Pos())
 	vc.frameCheckMap(ins)
